@@ -57,7 +57,8 @@ func main() { rp.Main(registry, batchRegistry) }
 // ------------------------------------------------------------------ the case
 
 type msgPlan struct {
-	API    string `json:"api"`    // "wm": WriteMessage, "nw": NextWriter + Write.. + Close
+	API    string `json:"api"`    // "wm": WriteMessage, "nw": NextWriter + Write.. + Close, "pm": WritePreparedMessage;
+	// "wmc", "nwc", "pmc": the same entry points with a Close frame (the data writer sends the Close itself)
 	Writes []int  `json:"writes"` // sizes of the data handed over per Write
 	Frames []bool `json:"frames"` // predicted frames (true: header write + extra write)
 	Pause  []int  `json:"pause"`  // "nw": the application pauses after these calls (0: NextWriter, i: the i-th Write)
@@ -912,8 +913,31 @@ func runSchedule(c *schedCase, idx int, seed int, wait time.Duration) outcome {
 	}
 	add("D", len(c.Msgs), func(call int) error {
 		plan, data := c.Msgs[call-1], payloads[call]
-		if plan.API == "wm" {
-			return s.conn.WriteMessage(websocket.BinaryMessage, data)
+		mtype := websocket.BinaryMessage
+		if strings.HasSuffix(plan.API, "c") {
+			mtype, data = websocket.CloseMessage, websocket.FormatCloseMessage(websocket.CloseNormalClosure, fmt.Sprintf("D.%d", call))
+		}
+		switch plan.API {
+		case "wm", "wmc":
+			return s.conn.WriteMessage(mtype, data)
+		case "pm", "pmc":
+			pm, err := websocket.NewPreparedMessage(mtype, data)
+			if err != nil {
+				rp.Bug("NewPreparedMessage: %v", err)
+			}
+			return s.conn.WritePreparedMessage(pm)
+		case "nwc":
+			w, err := s.conn.NextWriter(mtype)
+			if err != nil {
+				return err
+			}
+			if _, err := w.Write(data); err != nil {
+				return err
+			}
+			return w.Close()
+		case "nw":
+		default:
+			rp.Bug("message plan api %q", plan.API)
 		}
 		pauseAfter := func(i int) {
 			for _, k := range plan.Pause {
@@ -1132,7 +1156,8 @@ func (s *session) tagWrites() (observed map[int][]bool, lastComplete map[int]boo
 				continue
 			}
 			w.cls = h.class(s.client)
-			if w.cls != "bad" && !strings.HasPrefix(w.cls, "first") && !strings.HasPrefix(w.cls, "cont") {
+			isClose := w.call >= 1 && w.call <= len(s.c.Msgs) && strings.HasSuffix(s.c.Msgs[w.call-1].API, "c")
+			if w.cls != "bad" && !strings.HasPrefix(w.cls, "first") && !strings.HasPrefix(w.cls, "cont") && !(isClose && w.cls == "close") {
 				w.cls = "bad"
 			}
 			observed[w.call] = append(observed[w.call], have < h.plen)
@@ -1250,6 +1275,12 @@ func (s *session) evaluate(idx int, payloads [][]byte, got []delivered, xClosed 
 		C int    `json:"c"`
 		N int    `json:"n"`
 	}
+	dclose := []int{}
+	for m := range c.Msgs {
+		if strings.HasSuffix(c.Msgs[m].API, "c") {
+			dclose = append(dclose, m+1)
+		}
+	}
 	fault := c.Fault
 	if fault == nil {
 		fault = []faultPlan{}
@@ -1310,7 +1341,7 @@ func (s *session) evaluate(idx int, payloads [][]byte, got []delivered, xClosed 
 
 	o.line = map[string]interface{}{
 		"case": idx, "family": c.Family,
-		"prog": map[string]interface{}{"msgs": msgs, "hold": hold, "ctl": c.Ctl, "rd": rd, "cx": cx, "fault": fault,
+		"prog": map[string]interface{}{"msgs": msgs, "hold": hold, "dclose": dclose, "ctl": c.Ctl, "rd": rd, "cx": cx, "fault": fault,
 			"closer": c.Closer},
 		"ev":        append(s.ev, traceEv{Ev: "end", Ok: true}),
 		"frames":    frames,
